@@ -130,6 +130,16 @@ pub fn builder_profile() -> Profile {
     p
 }
 
+/// builder on modules whose type section has explicit rec groups, GC types and duplicates
+/// (type IDs of new signatures are then not simply "number of groups")
+pub fn builder_gc_profile() -> Profile {
+    let mut p = builder_profile();
+    p.name = "builder-gc";
+    p.gc_types = true;
+    p.dup_types = true;
+    p
+}
+
 pub fn types_profile() -> Profile {
     let mut p = Profile::base("types");
     p.gc_types = true;
@@ -375,7 +385,7 @@ pub fn check_def(id: &str) -> Option<CheckDef> {
         "C09" => d("C09", vec![delete_profile(false), delete_profile(true)]),
         "C10" => d("C10", vec![replace_profile()]),
         "C11" => d("C11", vec![convert_profile()]),
-        "C12" => d("C12", vec![builder_profile()]),
+        "C12" => d("C12", vec![builder_profile(), builder_gc_profile()]),
         "C13" => CheckDef {
             hash_seeds: (4, 8),
             quick_runs: 40_000,
@@ -427,11 +437,11 @@ fn owns(id: &str, m: &Mismatch) -> bool {
         "C06" | "C10" | "C11" => {
             generic
                 || k == "func_ref"
-                || (matches!(k, "entity_missing" | "entity_extra") && matches!(s, "func" | "import" | "start"))
+                || (matches!(k, "entity_missing" | "entity_extra") && matches!(s, "func" | "import" | "start" | "export(func)"))
                 || (k == "entity_changed" && s == "import.type")
         }
-        "C07" => generic || k == "global_ref" || (matches!(k, "entity_missing" | "entity_extra") && s == "global"),
-        "C08" => generic || k == "mem_ref" || (matches!(k, "entity_missing" | "entity_extra") && s == "memory"),
+        "C07" => generic || k == "global_ref" || (matches!(k, "entity_missing" | "entity_extra") && matches!(s, "global" | "export(global)")),
+        "C08" => generic || k == "mem_ref" || (matches!(k, "entity_missing" | "entity_extra") && matches!(s, "memory" | "export(memory)")),
         "C09" => {
             matches!(k, "entity_missing" | "entity_extra" | "entity_changed" | "silent_success_on_dangling_ref")
                 || (k == "unexpected_panic" && s.starts_with("op:delete"))
